@@ -44,7 +44,9 @@ CLAIMED = {
                  '(C02_plain_no_stuck_state, from the inductive invariant PInv: every blocked waiter\'s predicate is false, the '
                  'launcher has created tasks for a prefix of the launch order, nobody is cancelled). Partial for switch / one-of / '
                  'recurrent shapes: there the exact deadlock verdict of the stepping loop is compared with the model on every '
-                 'explored trace and the past deadlocks are regression programs, but stuck-freedom is not a theorem.', '§6 C02'),
+                 'explored trace and the past deadlocks are regression programs, and random walks through the model\'s own schedule space '
+                 '(all interleavings, not only asyncio\'s FIFO order) look for stuck model states on the graphs the real builder '
+                 'produces — but stuck-freedom is not a theorem there.', '§6 C02'),
     'C06': sched('Proof (plain pipelines, on the model): in every idle state of a pending run (nothing can run until a body or timer '
                  'completes) every node whose lower depths have all completed has been started, whatever its siblings are doing and '
                  'whatever the execution modes (C06_plain_next_depth_started, C06_plain_siblings_together, from PInv). Hypothesis '
